@@ -9,6 +9,9 @@ NoDev == {}
 DevPermSwap == {"perm-swap"}
 DevPermCtrl == {"perm-ctrl"}
 DevUpd == {"upd-special"}
+DevCopy == {"copy-mss"}
+DevCtlIden == {"cone-ctliden"}
+DevAll == {"upd-special", "copy-mss", "cone-ctliden", "perm-swap", "perm-ctrl"}
 NewParamsC == [n \in ParamNames1 \cup ParamNames2 |->
                  IF n \in {"RX", "RY", "RZ", "RXX", "RYY", "RZZ", "CRX", "CRY", "CRZ"} THEN {<<2>>, <<6>>, <<4>>}
                  ELSE IF ParamArity(n) = 1 THEN {<<1>>, <<3>>, <<6>>}
@@ -36,6 +39,14 @@ GatesE2q == { G("H", <<0>>, e0, e0), G("CX", <<0, 1>>, e0, e0), G("SWAP", <<0, 1
               GP("RX", <<0>>, e0, <<2>>), GP("U1", <<1>>, e0, <<1>>), G("T", <<1>>, <<0>>, e0), G("R2A", <<1, 0>>, e0, e0) }
 QueriesE2q == { QAmp(<<0, 1>>), QDense(FALSE), Q("uni"), QPtr(<<0>>), QPtr(<<1, 0>>),
                 QExp("P01", <<1>>), QMarg(<<1>>, << <<0, 1>> >>), Q("sample") }
+
+\* the copy self-test needs depth 5 (gate, query, copy, switch, sample): tiny alphabet
+GatesC1 == { G("H", <<0>>, e0, e0) }
+QueriesC1 == { QDense(FALSE), Q("sample") }
+
+\* the controlled-IDEN self-test
+GatesI2 == { G("H", <<0>>, e0, e0), G("H", <<1>>, e0, e0), G("IDEN", <<1>>, <<0>>, e0), G("CX", <<0, 1>>, e0, e0) }
+QueriesI2 == { QPtr(<<1>>), QExp("X", <<1>>), QMarg(<<1>>, <<>>) }
 
 (* ---- exhaustive, exact Circuit, N = 3 *)
 GatesE3 == { G("H", <<0>>, e0, e0), G("T", <<2>>, e0, e0), G("CX", <<0, 2>>, e0, e0), G("CX", <<2, 1>>, e0, e0),
